@@ -334,7 +334,7 @@ def h_agg(nu: int, ns: int, no: int, ni: int) -> bool:
 DB_KINDS = ["ok", "missing-file", "unknown-compiler", "unknown-option", "two-unknown-options", "unknown-compiler-and-option"]
 
 
-def h_db(k1: int, k2: int) -> bool:
+def h_db(k1: int, k2: int, same: bool) -> bool:
     """
     pre: 0 <= k1 < 6 and 0 <= k2 < 6
     post: _
@@ -347,6 +347,7 @@ def h_db(k1: int, k2: int) -> bool:
         for j in range(6):
             if v == j:
                 ks.append(j)
+    sm = bool(same)
     STATS["compared"] += 1
     if P.get("_twin"):
         return False
@@ -354,26 +355,30 @@ def h_db(k1: int, k2: int) -> bool:
     with scen.untraced():
         fs = scen.build_fs({"/r/a.c": ["@"], "/r/b.c": ["@"]})
         db = []
-        expect = []  # (substring that must be named, count)
+        tally = Counter()  # substring that must be named -> number of occurrences
         for i, k in enumerate(ks):
             f = "a.c" if i == 0 else "b.c"
             kind = DB_KINDS[k]
             cc = "gcc"
             flags = ["-DX", "-c"]
+            # with `same` both entries name the same compiler / option / missing file: one warning per occurrence is
+            # still due (nothing may be remembered from the first entry)
+            tag = "S" if sm else str(i)
             if kind == "missing-file":
-                f = "gone%d.c" % i
-                expect.append(("gone%d.c" % i, 1))
+                f = "gone%s.c" % tag
+                tally["gone%s.c" % tag] += 1
             if kind in ("unknown-compiler", "unknown-compiler-and-option"):
-                cc = "/opt/bin/weirdcc%d" % i
-                expect.append(("weirdcc%d" % i, 1))
+                cc = "/opt/bin/weirdcc%s" % tag
+                tally["weirdcc%s" % tag] += 1
             if kind in ("unknown-option", "unknown-compiler-and-option"):
-                flags = ["-fweird%d" % i] + flags
-                expect.append(("-fweird%d" % i, 1))
+                flags = ["-fweird%s" % tag] + flags
+                tally["-fweird%s" % tag] += 1
             if kind == "two-unknown-options":
-                flags = ["-fweird%d" % i, "--param", "-fother%d" % i] + flags
-                expect.append(("-fweird%d" % i, 1))
-                expect.append(("-fother%d" % i, 1))
+                flags = ["-fweird%s" % tag, "--param", "-fother%s" % tag] + flags
+                tally["-fweird%s" % tag] += 1
+                tally["-fother%s" % tag] += 1
             db.append({"directory": "/r", "file": f, "arguments": [cc] + flags + [f]})
+        expect = sorted(tally.items())
         old = codebasin.CompilationDatabase.from_file
         codebasin.CompilationDatabase.from_file = classmethod(lambda cls, path: cls.from_json(db))
         try:
@@ -397,7 +402,7 @@ def h_db(k1: int, k2: int) -> bool:
         finally:
             codebasin.CompilationDatabase.from_file = old
     if P.get("_replay"):
-        LAST.update(kinds=[DB_KINDS[k] for k in ks], why=why)
+        LAST.update(kinds=[DB_KINDS[k] for k in ks], same_names=sm, why=why)
     return why is None
 
 
